@@ -1,7 +1,7 @@
 SPECIFICATION Spec
 CONSTANTS
   Defects = {}
-  MaxUnits = 3
+  MaxUnits = 4
   MaxStmts = 1
   WithInvalid = FALSE
   MaxAttempts = 4
